@@ -27,6 +27,7 @@ import (
 	"io/ioutil"
 	"math/big"
 	"os"
+	"runtime"
 	"runtime/debug"
 	"runtime/pprof"
 	"sort"
@@ -443,8 +444,14 @@ func main() {
 		pprof.StartCPUProfile(f)
 		go func() { time.Sleep(150 * time.Second); pprof.StopCPUProfile(); f.Close() }()
 	}
-	debug.SetGCPercent(50)
-	debug.SetMemoryLimit(3 << 30)
+	// Every application open allocates ≈ 130 MB of zeroed LevelDB buffers (hard-coded cache
+	// size).  With a tiny live heap the runtime hands that memory back to the OS after each
+	// collection and faults it in again for the next open, which is very slow in this VM.  An
+	// untouched ballast raises the heap goal so that freed spans are reused instead.
+	ballast := make([]byte, 1<<30)
+	defer runtime.KeepAlive(ballast)
+	debug.SetGCPercent(100)
+	debug.SetMemoryLimit(7 << 29) // 3.5 GiB backstop
 	evmkit.Silence()
 	evmkit.SetAdminCallback(adminCallback)
 	work := run.WorkDir()
